@@ -17,7 +17,8 @@ import re._constants as sre_c
 
 import re
 
-from ..consteval import RegexConst, UNKNOWN, const_eval
+from ..consteval import (FuncRef, RegexConst, UNKNOWN, const_eval,
+                         repl_to_template)
 from ..facts import Facts, direct, has, has_call, has_const, param_of
 from ..index import AnalysisError, unparse, walk_no_nested
 from .. import query as Q
@@ -37,6 +38,15 @@ def _const_of(ctx, F, expr, fn):
     v = const_eval(ctx.repo, fn.module, expr)
     if v is UNKNOWN and isinstance(expr, ast.Name):
         v = const_eval(ctx.repo, fn.module, Q.inline(fn.node, expr))
+    if isinstance(v, FuncRef):
+        # a replacement function: its equivalent template
+        v = repl_to_template(ctx.repo, v.func.module, v.func.node)
+    elif isinstance(expr, ast.Lambda):
+        v = repl_to_template(ctx.repo, fn.module, expr)
+    elif v is UNKNOWN and isinstance(expr, ast.Name):
+        for n in ast.walk(fn.node):
+            if isinstance(n, ast.FunctionDef) and n.name == expr.id:
+                v = repl_to_template(ctx.repo, fn.module, n)
     return v
 
 
@@ -116,9 +126,27 @@ def parref_regex(ctx):
         vals = [a0]
         if isinstance(a0, ast.Name):
             vals = F.reaching_defs(e.fn, a0)
-        ok = ok and bool(vals) and all(
-            isinstance(v, ast.Call) and Q.callee_attr(v) == 'sub'
-            for v in vals)
+        def rewritten(v, fn_, d=0):
+            """v is the result of the rewrite: a .sub call, or a helper
+            every return of which is one."""
+            if not isinstance(v, ast.Call):
+                return False
+            if Q.callee_attr(v) == 'sub':
+                return True
+            callee = F.flow.resolve_call(v, fn_) if d < 2 else None
+            if callee is None:
+                return False
+            rets = [r.value for r in Q.returns(callee.node)]
+            out = bool(rets)
+            for r in rets:
+                if isinstance(r, ast.Name):
+                    ds = F.reaching_defs(callee, r)
+                    out = out and bool(ds) and all(
+                        rewritten(x, callee, d + 1) for x in ds)
+                else:
+                    out = out and rewritten(r, callee, d + 1)
+            return out
+        ok = ok and bool(vals) and all(rewritten(v, e.fn) for v in vals)
     ctx.ob(R, 'within_directory|every-suffix-is-rewritten', ok, f.node,
            'a path suffix can reach directory.append() without passing '
            'through the parent-reference rewrite (fast path)')
@@ -347,7 +375,7 @@ def write_root(ctx):
             ctx.ob(R, '{}|{}|{}'.format(fn.fq, kind, unparse(pathexpr)),
                    True, c, 'unreachable: ' + dead)
             continue
-        tr = _Tracer(repo)
+        tr = _Tracer(repo, _facts(ctx))
         roots = tr.trace(pathexpr, fn, 0)
         definite_bad = {r for r in roots if not r.startswith('?') and
                         r != BUILD}
@@ -397,15 +425,27 @@ class _Tracer:
         # OUTPUT-ROOT proves builddir-rooted
         ('post_output', 'output'): {BUILD},
         ('pre_output', 'name'): {BUILD},
-        # find_check_cache touches `regen_files.outputs`: the backend build
-        # file (module constant, builddir) and the immediate files, whose
-        # creation site (make_immediate_file) is itself a WRITE-ROOT instance
-        ('find_check_cache', 'i'): {BUILD},
     }
 
-    def __init__(self, repo):
+    def __init__(self, repo, facts=None):
         self.repo = repo
         self.visited = set()
+        self.facts = facts
+
+    def _regen_output(self, e, fn):
+        """The lazy-skip code of builtins.find touches the elements of
+        `<RegenerateFiles>.outputs`: the backend build file (module
+        constant, builddir) and the immediate files, whose creation site
+        (make_immediate_file) is itself a WRITE-ROOT instance. Recognised
+        by value flow (an element of an `.outputs` attribute), in whatever
+        function/variable the loop lives."""
+        if self.facts is None or fn is None or \
+                fn.module.name != 'bfg9000.builtins.find':
+            return False
+        from ..facts import components
+        a = {x for x in self.facts.atoms(e, fn)
+             if not x.startswith(('via:', 'const:', 'key:', 'alloc:'))}
+        return bool(a) and all('outputs' in components(x)[1:] for x in a)
 
     def trace(self, e, fn, depth):
         repo = self.repo
@@ -458,6 +498,10 @@ class _Tracer:
             t = unparse(e)
             if e.attr == 'builddir':
                 return {BUILD}
+            if e.attr == 'outputs' and repo.module_of(e).name == \
+                    'bfg9000.builtins.find':
+                # <RegenerateFiles>.outputs: see _regen_output
+                return {BUILD}
             if e.attr == 'srcdir':
                 return {SRC}
             if e.attr == 'path':
@@ -507,6 +551,19 @@ class _Tracer:
             key = (fn.node.name, e.id)
             if key in self.KNOWN:
                 return set(self.KNOWN[key])
+            if self._regen_output(e, fn):
+                return {BUILD}
+            # a plain loop variable: the elements share the root of the
+            # iterable (`for i in paths: touch(i)`)
+            loops = [n for n in walk_no_nested(fn.node) if isinstance(
+                n, ast.For) and isinstance(n.target, ast.Name) and
+                n.target.id == e.id]
+            if loops and len(Q.local_assignments(fn.node, e.id)) == len(
+                    loops):
+                out = set()
+                for lp in loops:
+                    out |= self.trace(lp.iter, fn, depth + 1)
+                return out
             vals = Q.local_assignments(fn.node, e.id)
             if vals:
                 out = set()
